@@ -510,7 +510,9 @@ func (rw *rewriter) redirectCalls(c callSpec) {
 			return true
 		}
 		ce.Fun = ast.NewIdent(c.To)
-		ce.Args = append([]ast.Expr{ast.NewIdent(c.Pass)}, ce.Args...)
+		if c.Pass != "" {
+			ce.Args = append([]ast.Expr{ast.NewIdent(c.Pass)}, ce.Args...)
+		}
 		rw.nCall++
 		return true
 	}, nil)
